@@ -64,7 +64,17 @@ def run_raw(case):
                 _, h, kind, param, kids = op
                 x = construct(kind, param, kids)
                 recipe[h] = (kind, param, list(kids))
-                outs.append(bind(h, x))
+                r = bind(h, x)
+                if kind == 4:
+                    # the returned function ctype must report exactly the requested signature, arrays decayed
+                    want = tuple(B.new_pointer_type(handles[a].item) if handles[a].kind == "array" else handles[a]
+                                 for a in kids[1:])
+                    got = x.args
+                    if len(got) != len(want) or any(g is not w for g, w in zip(got, want)) \
+                            or x.result is not handles[kids[0]] or bool(x.ellipsis) != bool(param & 1):
+                        r = r + ["BADSIG", x.cname]
+                    del want, got
+                outs.append(r)
                 del x
             elif k == "drop_rebuild":
                 # a weakref callback on the dying type rebuilds the same description: it runs inside
